@@ -320,6 +320,8 @@ fn main() {
             let decoys = ["helpers.ts", "commands.test.ts", "index.spec.ts", "types.mock.ts", "bindings.helpers.ts", "mytypes.ts", "types.tsx", "README.md", "MyHelpers.ts", "Types.ts", "API.md", ".write_test", ".gitkeep", "types.ts.bak", "dependency-graph.png", "dependency-graph.svg", "notes/keep.txt"];
             for d in decoys { fs::write(out.join(d), format!("foreign {}", d)).map_err(|e| e.to_string())?; }
             fs::write(out.join("models.ts"), "// stale generated file").map_err(|e| e.to_string())?;
+            // kept copies of earlier output: generated-looking content under names that are not reserved
+            for d in ["api-v1.ts", "types.backup.ts", "notes/types.ts"] { fs::write(out.join(d), "/**\n * Auto-generated TypeScript bindings for Tauri commands\n * Generated by tauri-typegen v0.4.2\n * Generated at: 2025-01-01T00:00:00+00:00\n * Generator: none\n *\n * Do not edit manually - regenerate using: cargo tauri-typegen generate\n */\n\nexport interface Kept { id: number; }\n").map_err(|e| e.to_string())?; }
             let conf_before = fs::read_to_string(proj.join("tauri.conf.json")).unwrap_or_default();
             let src_before = fs::read_to_string(src.join("lib.rs")).unwrap_or_default();
             let before = snapshot(&out);
